@@ -410,6 +410,36 @@ func genCase(t *rapid.T) Case {
 		top := c.Mods[0].Nodes[0]
 		top.Kids = append([]*sg.Node{box}, top.Kids...)
 	}
+	if g.Chance(1, 2, "flaggadget") && len(c.Mods[0].Nodes) > 0 {
+		// a flag: a presence container without children (or with an optional one) as a node of a case, next to a mandatory
+		// sibling, under a choice that may be mandatory itself and may sit inside a case of another choice.  The
+		// container alone, empty, selects its case and satisfies the choice.
+		str := func() *sg.TypeSpec { return &sg.TypeSpec{Name: "string"} }
+		flag := &sg.Node{Kind: "container", Name: "gf-flag", Presence: "on"}
+		if g.Bool("flagopt") {
+			flag.Kids = []*sg.Node{{Kind: "leaf", Name: "gf-opt", Type: str()}}
+		}
+		on := &sg.Node{Kind: "case", Name: "gf-on", Kids: []*sg.Node{flag}}
+		switch g.Pick(4, "flagsib") {
+		case 0:
+			on.Kids = append(on.Kids, &sg.Node{Kind: "leaf", Name: "gf-need", Type: str(), Mandatory: "true"})
+		case 1:
+			on.Kids = append(on.Kids, &sg.Node{Kind: "leaf-list", Name: "gf-need", Type: str(), Min: "1"})
+		case 2:
+			on.Kids = append(on.Kids, &sg.Node{Kind: "choice", Name: "gf-sub", Mandatory: "true", Kids: []*sg.Node{{Kind: "leaf", Name: "gf-s1", Type: str()}, {Kind: "leaf", Name: "gf-s2", Type: str()}}})
+		}
+		mode := &sg.Node{Kind: "choice", Name: "gf-mode", Kids: []*sg.Node{on, {Kind: "case", Name: "gf-off", Kids: []*sg.Node{{Kind: "leaf", Name: "gf-why", Type: str()}}}}}
+		if g.Bool("flagmand") {
+			mode.Mandatory = "true"
+		}
+		box := &sg.Node{Kind: "container", Name: "gf-box", Kids: []*sg.Node{mode}}
+		if g.Chance(1, 3, "flagnested") {
+			box.Kids = []*sg.Node{{Kind: "choice", Name: "gf-outer", Kids: []*sg.Node{{Kind: "case", Name: "gf-oa", Kids: []*sg.Node{mode, {Kind: "leaf", Name: "gf-oam", Type: str(), Mandatory: "true"}}},
+				{Kind: "case", Name: "gf-ob", Kids: []*sg.Node{{Kind: "leaf", Name: "gf-obl", Type: str()}}}}}}
+		}
+		top := c.Mods[0].Nodes[0]
+		top.Kids = append([]*sg.Node{box}, top.Kids...)
+	}
 	w := newWorld(c.Mods)
 	if w == nil {
 		return c
